@@ -84,9 +84,9 @@ public:
     SimStream(int id, const std::string& data, const Schedule& s, const StreamFaults& f, MemoryManager* mm = XMLPlatformUtils::fgMemoryManager)
         : fId(id), fData(data.data(), data.size()), fSched(s), fFaults(f), fMM(mm) {
         if (fFaults.truncateAt >= 0 && (size_t)fFaults.truncateAt < fData.size()) { fData.resize((size_t)fFaults.truncateAt); g_run.fault("truncate"); }
-        g_streamStats.opened++; g_run.ev("stream_open", (uint64_t)id, fData.size());
+        if (!Run::quiet()) g_streamStats.opened++; g_run.ev("stream_open", (uint64_t)id, fData.size());
     }
-    ~SimStream() { g_streamStats.closed++; }
+    ~SimStream() { if (!Run::quiet()) g_streamStats.closed++; }
     XMLFilePos curPos() const override { return fPos; }
     XMLSize_t readBytes(XMLByte* const toFill, const XMLSize_t maxToRead) override {
         g_run.tick(); fReads++;
